@@ -69,7 +69,9 @@ StepN(M, st) ==
           [] OTHER -> A
       M1 == FoldLeft(OnOut, M0, out)
       vTwo == {"two_self_initiated_connections" : p \in {q \in MPeers : Cardinality(M1.self[q]) > 1}}
-      sigs == vDpr \cup vDial \cup vMiss \cup vTwo \cup vKeep \cup vBack
+      \* the reconnect wait is measured from the loss: the loss time must be recorded when the connection is lost
+      vStamp == {"disconnect_time_not_recorded" : p \in {q \in MPeers : lostNow(q) /\ sn.peers[q].conn = 0 /\ sn.peers[q].ldisc # now}}
+      sigs == vDpr \cup vDial \cup vMiss \cup vTwo \cup vKeep \cup vBack \cup vStamp
       succIn(c) == \E j \in 1..Len(out) : out[j].ev = "tx" /\ out[j].c = c /\ out[j].m.cmd = "CE" /\ ~out[j].m.req /\ out[j].m.rc = 2001
       succOut(c) == feed /\ c = c0 /\ M1.dir[c] = "out" /\ \E j \in 1..Len(ms) : ms[j].cmd = "CE" /\ ~ms[j].req /\ ms[j].rc = 2001 /\ ms[j].oh # ""
       cerHost == IF feed /\ \E j \in 1..Len(ms) : ms[j].cmd = "CE" /\ ms[j].req
